@@ -504,8 +504,11 @@ async fn history<S: Store>(
     len: u64,
     tw: &mut TraceWriter,
     sum: &mut Summary,
-) -> Vec<u64> {
+) -> (Vec<u64>, Vec<String>) {
     let mut rng = StdRng::seed_from_u64(seed.wrapping_mul(1_000_003).wrapping_add(run));
+    // the sampling metadata as returned (sorted, multiplicities kept) after every sequential operation: the two
+    // back-ends conform to ONE model, so they must agree with each other on it
+    let mut metas: Vec<String> = vec![];
     let now = Time::now();
     let base = (now - Duration::from_secs(1_000_000)).unwrap();
     let mut it = Intern { base_secs: base.unix_timestamp(), ..Default::default() };
@@ -621,7 +624,10 @@ async fn history<S: Store>(
         // the projection queries run under catch too: a store left inconsistent by the operation may
         // panic in a later query, which is an observation, not a harness failure
         match std::panic::AssertUnwindSafe(project(s, &it, len)).catch_unwind().await {
-            Ok(st) => ev["st"] = st,
+            Ok(st) => {
+                metas.push(st["meta"].to_string());
+                ev["st"] = st
+            }
             Err(e) => {
                 let why = e.downcast_ref::<String>().cloned().or_else(|| e.downcast_ref::<&str>().map(|s| s.to_string())).unwrap_or_default();
                 ev["res"] = json!(r);
@@ -643,7 +649,7 @@ async fn history<S: Store>(
     if had_fail_insert && had_remove && reinsert {
         sum.add("histories_with_failed_insert_removal_and_reinsertion", 1);
     }
-    results
+    (results, metas)
 }
 
 pub fn record(args: &Args) {
@@ -658,10 +664,11 @@ pub fn record(args: &Args) {
     let rt = tokio::runtime::Builder::new_current_thread().enable_all().build().unwrap();
     h_common::QUIET_ALL.store(true, std::sync::atomic::Ordering::Relaxed);
     let mut disagreements = vec![];
+    let mut meta_disagreements = vec![];
     rt.block_on(async {
         for run in 0..runs {
             let mem = InMemoryStore::new();
-            let r1 = history(&mem, "mem", seed, run, ops, len, &mut tw, &mut sum).await;
+            let (r1, m1) = history(&mem, "mem", seed, run, ops, len, &mut tw, &mut sum).await;
             let redb = if file_backed {
                 let p = format!("{}/store-{run}.redb", args.opt("redb-file").unwrap());
                 let _ = std::fs::remove_file(&p);
@@ -669,8 +676,11 @@ pub fn record(args: &Args) {
             } else {
                 RedbStore::in_memory().await.unwrap()
             };
-            let r2 = history(&redb, "redb", seed, run, ops, len, &mut tw, &mut sum).await;
+            let (r2, m2) = history(&redb, "redb", seed, run, ops, len, &mut tw, &mut sum).await;
             let upto = r1.iter().position(|x| *x == 777).unwrap_or(r1.len()).min(r2.iter().position(|x| *x == 777).unwrap_or(r2.len()));
+            if let Some(i) = (0..upto.min(m1.len()).min(m2.len())).find(|i| m1[*i] != m2[*i]) {
+                meta_disagreements.push(json!({"run": run, "op_index": i, "mem": m1[i], "redb": m2[i]}));
+            }
             if let Some(i) = (0..upto).find(|i| r1[*i] != r2[*i]) {
                 disagreements.push(json!({"run": run, "op_index": i, "mem": r1[i], "redb": r2[i]}));
             }
@@ -680,5 +690,6 @@ pub fn record(args: &Args) {
     sum.set("events", json!(n));
     sum.set("runs", json!(runs * 2));
     sum.set("backend_result_disagreements", json!(disagreements));
+    sum.set("backend_metadata_disagreements", json!(meta_disagreements));
     sum.write(args.opt("summary").unwrap_or("/dev/stdout"));
 }
